@@ -108,7 +108,7 @@ class Template:
                     else:
                         n["title"] = FOREIGN_RULE["defectdojo"]
                 if sp["kind"] == "status" and self.tool == "sonar":
-                    n["status"] = "RESOLVED" if u % 2 else "CLOSED"
+                    n["status"] = ("RESOLVED", "CLOSED", "REVIEWED")[u % 3]
                 if self.tool == "sonar":
                     doc[key].append(n)
                 elif self.tool == "semgrep":
@@ -116,8 +116,31 @@ class Template:
                 else:
                     doc["results"].append(n)
                 if sp["kind"] == "real":
-                    expected.setdefault(sp["file"], {}).setdefault(str(self.site_line + sp["delta"]), []).append(self.identity(n, u))
+                    expected.setdefault(sp["file"], {}).setdefault(str(sp.get("site", self.site_line + sp["delta"])), []).append(self.identity(n, u))
         return doc, expected
+
+
+def _multiline(text: str, site_lines: list[int]):
+    """Spread every site over three lines (`f(` / arguments / `)`); returns (text, first line of each site, the inner
+    line of each site) or None when the site is not a simple call on one line."""
+    src = text.split("\n")
+    out, starts, inner = [], [], []
+    for no, ln in enumerate(src, 1):
+        if no in site_lines:
+            code, _, comment = ln.partition("  # site")
+            i, j = code.find("("), code.rfind(")")
+            if i < 0 or j <= i + 1:
+                return None
+            pad = code[: len(code) - len(code.lstrip())]
+            starts.append(len(out) + 1)
+            out.append(code[: i + 1] + (f"  # site{len(out) + 1}"))
+            inner.append(len(out) + 1)
+            out.append(pad + "    " + code[i + 1 : j].strip())
+            out.append(pad + code[j:])
+        else:
+            out.append(ln)
+    new = "\n".join(out)
+    return (new, starts, inner) if seeds.compiles(new) else None
 
 
 def option_for(tool: str, doc: dict) -> str:
@@ -155,9 +178,25 @@ def run(chk: Check) -> None:
         progs = [p for p in (seeds.multi_site_program(seed, site, lay, mark=True) for lay in layouts) if p]
         if not progs:
             continue
-        files, specs, site_lines, exp_sites = {}, [], {}, {}
+        files, specs, site_lines, exp_sites, site_spans = {}, [], {}, {}, {}
         for k, (sc, must) in enumerate(abstract):
             if sc["kind"] == "status" and tpl.tool != "sonar":
+                continue
+            if sc["kind"] == "inner":
+                # a construct spanning several lines, the finding on an inner line: only for tools that report a line
+                if tpl.tool != "defectdojo":
+                    continue
+                ml = _multiline(progs[0][0], progs[0][1])
+                if ml is None:
+                    continue
+                text, starts, inner = ml
+                rel = f"multi{k}.py"
+                files[rel] = text + "\n"
+                site_lines[rel] = starts
+                site_spans[rel] = {str(s_): [s_, s_ + 2] for s_ in starts}
+                exp_sites[rel] = [starts[i - 1] for i in must]
+                for i in sorted(sc["reported"]):
+                    specs.append({"file": rel, "delta": inner[i - 1] - first, "kind": "real", "site": starts[i - 1]})
                 continue
             text, lines = progs[k % len(progs)]
             rel = f"pkg/code{k}.py" if k % 3 == 0 else f"code{k}.py"
@@ -173,7 +212,7 @@ def run(chk: Check) -> None:
         scenarios.append({
             "id": f"C06-{cid}", "files": files, "resfiles": {"results.json": doc},
             "steps": [{"argv": ["{dir}", "--output", "{out}", "--codemod-include", cid, opt, "{res}/results.json"],
-                       "site_lines": site_lines, "site_findings": findings, "expect": {"siteMay": exp_sites, "siteMust": exp_sites}}],
+                       "site_lines": site_lines, "site_spans": site_spans, "site_findings": findings, "expect": {"siteMay": exp_sites, "siteMust": exp_sites}}],
             "_meta": {"codemod": cid, "tool": tpl.tool, "exp": exp_sites, "site_lines": site_lines},
         })
         # the empty result file
@@ -240,7 +279,7 @@ def run(chk: Check) -> None:
             if ev and not ev.get("unfixedOk", True):
                 problems.append("unfixed finding never reported")
             if problems:
-                kind = "control" if want == lines else ("none-reported" if not want else "subset")
+                kind = "inner-line" if rel.startswith("multi") else ("control" if want == lines else ("none-reported" if not want else "subset"))
                 chk.violation(f"C06|{m['codemod']}|{kind}|{'+'.join(p.split(' ')[0] for p in problems)}",
                               f"{m['codemod']} ({m['tool']}) {rel}: sites {lines}: {'; '.join(problems)}; {'; '.join(st['notes'][:3])}",
                               {"argv": scn["steps"][0]["argv"], "file": rel, "text": scn["files"][rel], "results": scn["resfiles"]["results.json"], "verdict": v})
